@@ -28,6 +28,14 @@ class Ctx(object):
 
 
 def main():
+    # a runaway state (e.g. a buffer that grows without bound) must end as a MemoryError inside this process,
+    # which is reported, not as an OOM kill of the machine
+    try:
+        import resource
+        lim = 24 * 1024 ** 3
+        resource.setrlimit(resource.RLIMIT_AS, (lim, lim))
+    except Exception:
+        pass
     ap = argparse.ArgumentParser()
     ap.add_argument('prop')
     ap.add_argument('--tier', default=os.environ.get('VERIF_TIER', 'quick'))
